@@ -274,8 +274,14 @@ EmptyPartP(t, P) ==
 (* The statement's rejection clause, for exactly the classes it names: a string that is   *)
 (* not a canonical SID but is one up to whitespace / signs / non-ASCII digits (this        *)
 (* includes the trailing newline), or is SID-shaped with 0 or 16+ sub-authorities or an    *)
-(* out-of-range number, or has an empty part.  Everything else (leading zeros, lower       *)
-(* case "s", two-digit revision, ...) is in neither set: the check demands nothing.        *)
+(* out-of-range number, or has an empty part.                                              *)
+(* ... and, by the statement's general clause ("strings that are not a canonical in-range SID are rejected ... rather  *)
+(* than silently altered"), a string that is not even SID syntax: not "S", dash, one ASCII digit, dash, then            *)
+(* dash-separated runs of ASCII digits - e.g. a lower case "s", U+017F, a letter in or after a number, "0x5", a two     *)
+(* digit revision, "S", "SY", "S-1".  A string that IS this syntax and differs from the canonical form only by leading   *)
+(* zeros stays in neither set.                                                                                          *)
+NotSidSyntax(s) == ~ShapedP(Split(s))
+
 MustReject(s) ==
   LET P0 == Split(s)
   IN /\ ~CanonicalP(P0)
@@ -284,6 +290,7 @@ MustReject(s) ==
         IN \/ CanonicalP(P)
            \/ ShapedP(P) /\ (BadCountP(P) \/ OutOfRangeP(P))
            \/ EmptyPartP(t, P)
+           \/ NotSidSyntax(s)
 
 Classify(s) == IF Canonical(s) THEN "canonical" ELSE IF MustReject(s) THEN "reject" ELSE "dontcare"
 =============================================================================
